@@ -287,4 +287,7 @@ func init() {
 		Old: "\t\t\t\tminifyBuffer.Reset()\n\t\t\t\tif err := m.MinifyMimetype(defaultStyleType, minifyBuffer, buffer.NewReader(t.Data), defaultStyleParams); err == nil {\n\t\t\t\t\tt.Data = minifyBuffer.Bytes()\n\t\t\t\t} else if err != minify.ErrNotExist {\n\t\t\t\t\treturn minify.UpdateErrorPosition(err, z, t.Offset)\n\t\t\t\t}\n\t\t\t\t// the style sheet is character data like any other: a ]]> in it, in a string for instance, must stay escaped\n\t\t\t\tt.Data, _ = escapeCDATAEnd(t.Data, brackets)\n\t\t\t\tw.Write(t.Data)\n",
 		New: "\t\t\t\tif err := m.MinifyMimetype(defaultStyleType, w, buffer.NewReader(t.Data), defaultStyleParams); err != nil {\n\t\t\t\t\tif err != minify.ErrNotExist {\n\t\t\t\t\t\treturn minify.UpdateErrorPosition(err, z, t.Offset)\n\t\t\t\t\t}\n\t\t\t\t\tt.Data, _ = escapeCDATAEnd(t.Data, brackets)\n\t\t\t\t\tw.Write(t.Data)\n\t\t\t\t}\n",
 		Rule: "R09.17", Construct: "text case hands the output to MinifyMimetype"})
+	mutant(&Mutant{Name: "c09-hoisted-async-bare-in-the-for-of-head", Property: "C09", File: "js/js.go",
+		Old: "\t\t\tif bare != nil && (bytes.Equal(bare.Name(), letBytes) || bytes.Equal(bare.Name(), asyncBytes)) {\n", New: "\t\t\tif bare != nil && bytes.Equal(bare.Name(), letBytes) {\n",
+		Rule: "R09.30", Construct: "case *js.ForOfStmt/declaration printed"})
 }
